@@ -48,6 +48,9 @@ def success_case(draw):
                                hyd=draw(st.sampled_from(["none", "none", "all"]))))  # fmt: skip
         for ch_ in d["chains"]:
             ch_.pop("extra", None)  # success side: complete STANDARD residues only (no undefined atoms)
+        for w_ in d.get("waters", []):
+            if w_.get("h") == "H2":
+                w_["h"] = "both"  # ... and complete waters only
         desc.update(d)
     if kind in ("na", "mixed"):
         from . import c02
